@@ -202,7 +202,7 @@ class C17(Check):
     ]
 
     def runs(self, tier):
-        return 3000 if tier == "quick" else 1500000
+        return 15000 if tier == "quick" else 1500000
 
     def make(self, ctx, index):
         rng = core.rng_for(ctx.seed, "c17", index)
